@@ -23,10 +23,13 @@ class Cache:
     def get_many(self, keys): return self._read("get_many", True, keys)
     def gets_many(self, keys): return self._read("gets_many", True, keys)
 
+    write_answer = "tuple"
+
     def __getattr__(self, name):
         def f(*a, **kw):
             self.log.append((self.idx, name, a, tuple(sorted(kw.items()))))
-            return ("ret", name, self.idx)
+            wa = Cache.write_answer
+            return ("ret", name, self.idx) if wa == "tuple" else wa
         return f
 
 
@@ -170,5 +173,29 @@ def main(argv):
                         bound.update(dict(log[0][3]))
                         if tuple(bound.get(p) for p in params) != want:
                             ctx.violation("caller's arguments not forwarded unchanged", case)
+    # whatever the first cache answers to a mutating call (True, False, None = "no such key", 0), no other cache is asked
+    try:
+        for n in range(1, 5):
+            for op, params in WRITES.items():
+                for answer in (True, False, None, 0):
+                    for form in ("positional", "keyword"):
+                        Cache.write_answer = answer
+                        log = []
+                        fc = FallbackClient([Cache(i, HIT, log) for i in range(n)])
+                        vals = {p_: ("arg", p_) for p_ in params}
+                        try:
+                            got = getattr(fc, op)(*[vals[p_] for p_ in params]) if form == "positional" else getattr(fc, op)(**vals)
+                        except Exception as e:
+                            got = e
+                        case = {"op": op, "form": form, "caches": n, "first_cache_answers": repr(answer), "returned": repr(got)[:60], "log": repr(log)[:200]}
+                        ctx.case(("write-answer", op, form, n, repr(answer)))
+                        ctx.count("write-answers")
+                        if len(log) != 1 or log[0][0] != 0 or log[0][1] != op:
+                            ctx.violation("mutating operation not applied to exactly the first cache", case, tags=["write-answer"])
+                        elif isinstance(got, Exception):
+                            ctx.violation("a mutating operation raised on a healthy first cache", case, tags=["write-answer"])
+                        # (what the call returns is not part of the property: the unchanged FallbackClient returns None from its writes)
+    finally:
+        Cache.write_answer = "tuple"
     ctx.assumptions = ["caches are scripted objects; only the call log is observed"]
     ctx.finish()
